@@ -9,10 +9,10 @@ from props import mincommon as mc
 ID = 'C01'
 GEN_FILES = ['T_lexer', 'T_luanames', 'T_minifier', 'T_minifier_p8', 'T_minwiring_lua', 'T_minwiring_tool', 'T_minwiring_build', 'T_pins_lexer',
              # source pins of the hand-modelled modules (gen/kernels_pins.py)
-             'T_pins_luamin']
+             'T_pins_luamin', 'T_pins_luacontainer']
 COQ_PROPERTY = 'theories/Properties/C01.vo'
 COQ_EXTRA = ['theories/Proofs/LexerPins.vo',
-             'theories/Proofs/LuaMinPins.vo']
+             'theories/Proofs/LuaMinPins.vo', 'theories/Proofs/LuaContainerPins.vo']
 MODEL = ('ExC01', 'c01_main.ml')
 MONITOR = ('MonC01', 'c01_mon_main.ml')
 CASE_TIMEOUT = 120
